@@ -1,19 +1,19 @@
 #!/bin/sh
-# usage: tools/import_seed2.sh <property> <A|B> <new-seed-id>   (batch 2: /tmp/wt2-<property>/SEED/<A|B>)
-p=$1; ab=$2; id=$3
-src=/tmp/wt2-$p/SEED/$ab
+# usage: tools/import_seed2.sh <property> <A|B> <new-seed-id> [batch]   (batch 2: /tmp/wt2-<property>/SEED/<A|B>, batch 3: /tmp/wt3-...)
+p=$1; ab=$2; id=$3; batch=${4:-2}
+src=/tmp/wt$batch-$p/SEED/$ab
 [ -f $src/patch.diff ] || { echo "no patch in $src"; exit 2; }
 mkdir -p /verif/seeded/$id
 cp -r $src/* /verif/seeded/$id/
-# Go demo files must not be picked up by tooling that walks /verif: keep them as .txt beside the original name
 cat > /verif/seeded/$id/meta.json <<EOM
 {
  "property": "$p",
  "breaks": "see NOTES.md (written by the sub-agent that produced the change)",
  "needs_to_manifest": "see NOTES.md",
- "produced_by": "fresh sub-agent (second batch) given only the property text (statement, quantification, mechanisms) and a scratch worktree of /repo without contract files",
+ "produced_by": "fresh sub-agent (batch $batch) given only the property text (statement, quantification, mechanisms, anchor files) and a scratch worktree of /repo without contract files",
  "confirmed": "PENDING",
- "checked_with": "tools/run_seed.sh (git -C /repo apply patch.diff; bin/vcheck -property <id>; git -C /repo checkout -- .)"
+ "checked_with": "tools/run_all_seeds.sh / tools/run_seed.sh",
+ "batch": $batch
 }
 EOM
 echo imported $id
